@@ -351,6 +351,14 @@ def _more_builders():
       d.answers = [rr('h.example', 28, self.A.IPAddr6(ctx.bytes(self.n('rdata6'), 16), raw=True))]; d.additional = [rr('h.example', 16, ctx.bytes(self.n('txt'), 3))]
     elif shape == 'cname_ns_ptr':
       d.questions = [q('w.ab.c')]; d.answers = [rr('w.ab.c', 5, 'x.ab.c')]; d.authorities = [rr('ab.c', 2, 'ns.ab.c')]; d.additional = [rr('4.3.2.1.in-addr.arpa', 12, 'w.ab.c')]
+    elif shape == 'cname_chain':
+      # names that are first written in compressed form (labels + pointer) and referred to again later, whole and as a suffix
+      d.questions = [q('www.ab.c')]
+      d.answers = [rr('www.ab.c', 5, 'web.ab.c'), rr('web.ab.c', 5, 'lb.web.ab.c'), rr('lb.web.ab.c', 1, self.ip('rdata'))]
+    elif shape == 'referral':
+      d.questions = [q('x.sub.ab.c')]
+      d.authorities = [rr('sub.ab.c', 2, 'ns1.sub.ab.c'), rr('sub.ab.c', 2, 'ns2.ab.c')]
+      d.additional = [rr('ns1.sub.ab.c', 1, self.ip('glue1')), rr('ns2.ab.c', 1, self.ip('glue2')), rr('ns1.sub.ab.c', 28, self.A.IPAddr6(ctx.bytes(self.n('glue6'), 16), raw=True))]
     elif shape == 'mx': d.answers = [rr('ab.c', 15, 'mail.ab.c')]
     elif shape == 'root': d.questions = [q('')]
     tup = lambda r: (r.name, r.qtype, r.qclass, r.ttl, r.rddata)
@@ -600,6 +608,8 @@ STACKS = {
   'dns_q1a1':   lambda b: [b.eth(0x800), b.ipv4(17), b.udp(sport=53), b.dns('q1a1')],
   'dns_aaaa_txt': lambda b: [b.eth(0x86dd), b.ipv6(17), b.udp(sport=53), b.dns('aaaa_txt')],
   'dns_names':  lambda b: [b.eth(0x800), b.ipv4(17), b.udp(sport=53), b.dns('cname_ns_ptr')],
+  'dns_chain':  lambda b: [b.eth(0x800), b.ipv4(17), b.udp(sport=53), b.dns('cname_chain')],
+  'dns_referral': lambda b: [b.eth(0x800), b.ipv4(17), b.udp(sport=53), b.dns('referral')],
   'dns_mx':     lambda b: [b.eth(0x800), b.ipv4(17), b.udp(sport=53), b.dns('mx')],
   'dns_root':   lambda b: [b.eth(0x800), b.ipv4(17), b.udp(dport=5353), b.dns('root')],
   'dhcp_discover': lambda b: [b.eth(0x800), b.ipv4(17), b.udp(sport=68, dport=67), b.dhcp('discover')],
@@ -622,7 +632,7 @@ STACKS = {
 }
 
 
-NO_PAYLOAD = ('dhcp_discover', 'dhcp_offer', 'dhcp_rawhw', 'dhcp_rawopt', 'dhcp_noopt', 'dns_q1', 'dns_q2', 'dns_q1a1', 'dns_aaaa_txt', 'dns_names', 'dns_mx', 'dns_root', 'rip1', 'rip2', 'eap_success', 'eapol_start', 'nd_rs', 'nd_rs_slla', 'nd_ra', 'nd_ra_opts', 'nd_ns', 'nd_ns_slla', 'nd_na_tlla', 'nd_na_generic')
+NO_PAYLOAD = ('dhcp_discover', 'dhcp_offer', 'dhcp_rawhw', 'dhcp_rawopt', 'dhcp_noopt', 'dns_q1', 'dns_q2', 'dns_q1a1', 'dns_aaaa_txt', 'dns_names', 'dns_chain', 'dns_referral', 'dns_mx', 'dns_root', 'rip1', 'rip2', 'eap_success', 'eapol_start', 'nd_rs', 'nd_rs_slla', 'nd_ra', 'nd_ra_opts', 'nd_ns', 'nd_ns_slla', 'nd_na_tlla', 'nd_na_generic')
 
 
 def h_stack(ctx, stack, n, repack=True):
